@@ -4,7 +4,7 @@
 //!   PROP  the operation returns / yields an error, or the resulting snapshot is the fault-free
 //!         full-effect snapshot; never a panic; lower overlay layers unchanged.
 //!   CORR  per k: result class, `fired`, snapshot against the Lean model (same fault plan).
-use crate::tree_stream::{first_diff, gen_layers, gen_op, parse_snap, populate_lines, project, Cfg, Op, TreeSpec, Who, UNIVERSE};
+use crate::tree_stream::{first_diff, gen_layers, gen_op, parse_snap, populate_lines, project, Cfg, Op, TreeSpec, Who, universe};
 use crate::util::*;
 use crate::world::RWorld;
 
@@ -104,7 +104,7 @@ pub fn run(o: &Opts) -> Report {
         time_ops: false,
         preds: vec![],
     };
-    let uni: String = UNIVERSE.iter().map(|p| enc_str(p)).collect::<Vec<_>>().join(" ");
+    let uni: String = universe().iter().map(|p| enc_str(p)).collect::<Vec<_>>().join(" ");
     // every request line sent to the model, with the implementation's answer
     let mut batch: Vec<String> = vec![];
     let mut impl_outs: Vec<String> = vec![];
